@@ -551,3 +551,14 @@ package unmarshal
 //@ func (*parserDoer).tamePanic [C05]
 //@   flag checks=-index,-assert
 //@   at chan.send the-error-is-sent-before-the-channel-is-closed: closeCalls == old(closeCalls)
+
+// Datadog metrics: the keys of a series object arrive in any order, so no key may
+// discard what the keys before it collected - the "metric" key adds exactly the
+// __name__ pair to the labels gathered so far.
+//@ func (*datadogMetricsRequestDec).WrapError
+//@   modifies nothing
+//@ func (*datadogMetricsRequestDec).MaybeString [C03]
+//@   modifies nothing
+//@ func (*datadogMetricsRequestDec).DecodeSeriesItem [C03]
+//@   flag checks=-slice
+//@   ensures metric-key-keeps-labels: key == "metric" ==> len(d.Labels) == old(len(d.Labels)) + 1 && d.Labels[old(len(d.Labels))][0] == "__name__" && (forall i int :: 0 <= i && i < old(len(d.Labels)) ==> d.Labels[i] == old(d.Labels[i]))
